@@ -6,6 +6,9 @@ use crate::data_type::{
 use paste::paste;
 use rand::rngs::OsRng;
 use std::sync::{Arc, Mutex};
+// Verification hook (guard: `--cfg qrlew_verif`): per-thread tables are per *simulated* thread.
+#[cfg(qrlew_verif)]
+use shuttle::thread_local;
 
 macro_rules! function_implementations {
     ([$($nullary:ident),*], [$($unary:ident),*], [$($binary:ident),*], [$($ternary:ident),*], [$($quaternary:ident),*], $function:ident, $default:block) => {
